@@ -4,17 +4,17 @@ CONSTANTS
   MaxCU = 2
   CUs = {1, 2}
   MaxVE = 0
-  MaxUpdates = 1
-  MaxOps = 3
+  MaxUpdates = 0
+  MaxOps = 2
   MaxSess = 3
   ConsecLimit = 1
   FailKinds = {"plain", "block", "sync"}
   PairingSets = {{"p1", "p2"}}
   Supp = {"p1"}
   Addons = {FALSE}
-  SplitReserve = FALSE
+  SplitReserve = TRUE
 INIT Init
 NEXT Next
-INVARIANTS TypeOK Exclusive Accounting Bound Signed BlockedRule
-PROPERTIES RelayNumMono
+INVARIANTS Bound
+
 CHECK_DEADLOCK FALSE
